@@ -75,17 +75,33 @@ _STAGE: set = set()
 
 
 def stage_functions(index) -> set:
-    """Qualified names of the differentiation stages: the methods of the transform package that (possibly through a nested
-    closure) call torch.autograd.grad."""
+    """Qualified names of the differentiation stages: the classes of the transform package one of whose methods reaches a call of
+    torch.autograd.grad — in its own body, in a nested closure, or in a function of its module that it calls or hands to
+    partial(). Every method of such a class, and every helper it calls, works on behalf of the stage."""
     import ast
+
+    from ..index import FunctionInfo
+
+    def direct(fi):
+        return any(isinstance(n, ast.Call) and ast.unparse(n.func).endswith("autograd.grad") for n in ast.walk(fi.node))
+
+    def reaches(fi, seen):
+        if fi.qualname in seen:
+            return False
+        seen.add(fi.qualname)
+        if direct(fi):
+            return True
+        for n in ast.walk(fi.node):
+            if isinstance(n, ast.Name) and isinstance(n.ctx, ast.Load):
+                c = index.resolve_name(fi.module, n.id)
+                if isinstance(c, FunctionInfo) and c.cls is None and c.parent is None and c.module is fi.module and reaches(c, seen):
+                    return True
+        return False
 
     out = set()
     for fi in index.all_functions("torchjd.autojac._transform"):
-        if fi.parent is not None:
-            continue
-        for n in ast.walk(fi.node):
-            if isinstance(n, ast.Call) and ast.unparse(n.func).endswith("autograd.grad"):
-                out.add(fi.qualname)
+        if fi.parent is None and fi.cls is not None and reaches(fi, set()):
+            out.add(fi.cls.qualname)
     return out
 
 
